@@ -260,3 +260,5 @@ def run(chk, facts, tier):
     from rules import c13_projectable
     c13_projectable.check(chk, facts)
     residual_hom.check_substitute(chk, facts)
+    from rules import c13_shortcircuit
+    c13_shortcircuit.check(chk, facts)
